@@ -90,7 +90,14 @@ def regen_facts():
 def MODULES(prop):
     """(directory, module) pairs holding the obligations of a property: property theorems, tie theorems, and the
     frozen-body tie theorems where a hand-written model mirrors whole function bodies"""
-    return [("Props", prop), ("Tie", prop), ("Tie", prop + "Frozen")]
+    mods = []
+    for sub in ("Props", "Tie"):
+        d = os.path.join(LEAN, "TallyProofs", sub)
+        for f in sorted(os.listdir(d)):
+            # Cxx.lean, CxxFrozen.lean, CxxLife.lean, … (a suffix that starts with a letter, so C1 never matches C10)
+            if re.match(r"^%s([A-Z][A-Za-z]*)?\.lean$" % re.escape(prop), f):
+                mods.append((sub, f[:-5]))
+    return mods
 
 
 def theorem_names(prop):
@@ -110,11 +117,11 @@ def theorem_names(prop):
             if m and stack:
                 stack.pop()
                 continue
-            m = re.match(r"^\s*(?:@\[[^\]]*\]\s*)?(private\s+|protected\s+)?theorem\s+([A-Za-z0-9_'.]+)", line)
+            m = re.match(r"^\s*(?:@\[[^\]]*\]\s*)?(private\s+|protected\s+)?theorem\s+([^\s:({\[]+)", line)
             if m and (m.group(1) or "").strip() == "private":
                 continue  # private names are mangled and cannot be named from the audit file; their axioms show up in their users
             if m:
-                m = re.match(r"^\s*(?:@\[[^\]]*\]\s*)?(?:protected\s+)?theorem\s+([A-Za-z0-9_'.]+)", line)
+                m = re.match(r"^\s*(?:@\[[^\]]*\]\s*)?(?:protected\s+)?theorem\s+([^\s:({\[]+)", line)
             if m:
                 ns = ".".join(n for k, n in stack if k == "namespace" and n)
                 nm = m.group(1)
